@@ -5,6 +5,7 @@ import (
 	"fmt"
 	"io"
 	"math/rand"
+	"runtime"
 	"strconv"
 	"strings"
 	"sync"
@@ -85,9 +86,9 @@ func c20Parse(c Case) (p c20Case, err error) {
 }
 
 type c20Read struct {
-	n, k      int
-	data      []byte
-	cls       string
+	n, k       int
+	data       []byte
+	cls        string
 	afterClose bool // a Close had returned before this Read was called
 }
 
@@ -105,8 +106,12 @@ type c20Run struct {
 const c20Sentinel = 0xEE
 
 // one execution of the case on the real code with watchdog wd
-func c20Attempt(p c20Case, wd time.Duration) *c20Run {
+// tight: the consumer starts only after the assembler goroutine has started (and, on one P, has
+// therefore parked in its first send), so that the first Read receives from a parked sender and
+// the calls that follow it run before the assembler is scheduled again.
+func c20Attempt(p c20Case, wd time.Duration, tight bool) *c20Run {
 	run := &c20Run{asm: "stuck", cons: "stuck"}
+	var started int32
 	var rs tcpreader.ReaderStream // zero value unless made by NewReaderStream
 	if p.ini {
 		rs = tcpreader.NewReaderStream()
@@ -129,6 +134,7 @@ func c20Attempt(p c20Case, wd time.Duration) *c20Run {
 	go func() { // assembler
 		defer close(asmDone)
 		status := "done"
+		atomic.StoreInt32(&started, 1)
 		call := func(f func()) (ok bool) {
 			defer func() {
 				if r := recover(); r != nil {
@@ -158,6 +164,14 @@ func c20Attempt(p c20Case, wd time.Duration) *c20Run {
 		defer close(consDone)
 		status := "done"
 		closedOnce := false
+		if tight {
+			for atomic.LoadInt32(&started) == 0 {
+				runtime.Gosched()
+			}
+			for i := 0; i < 4; i++ {
+				runtime.Gosched()
+			}
+		}
 		doRead := func(n int) (cls string, panicked bool) {
 			buf := make([]byte, n+8)
 			for i := range buf {
@@ -286,25 +300,78 @@ func c20Attempt(p c20Case, wd time.Duration) *c20Run {
 	return snap
 }
 
-func (c20) runCase(c Case) Result {
-	var res Result
-	p, err := c20Parse(c)
-	if err != nil {
-		res.Obs = []string{"bad-case=" + err.Error()}
-		return res
-	}
-	run := c20Attempt(p, 200*time.Millisecond)
+// free-running execution (watchdog 200 ms, a stuck result confirmed by a fresh run with 600 ms)
+func c20RunFree(p c20Case) *c20Run {
+	run := c20Attempt(p, 200*time.Millisecond, false)
 	if run.asm == "stuck" || run.cons == "stuck" {
 		// confirm with a fresh run and a longer watchdog, so that a loaded machine is not mistaken for a deadlock
-		run = c20Attempt(p, 600*time.Millisecond)
+		run = c20Attempt(p, 600*time.Millisecond, false)
 	}
+	return run
+}
+
+// c20SingleP is set while the pool has pinned the process to one P.
+var c20SingleP int32
+
+// the same case on ONE P with the consumer held back until the assembler is parked in its first
+// send: Read then receives from a parked sender and everything the consumer does next (more
+// reads from the same batch, Close) runs before the assembler reaches <-r.done.  On one P this
+// interleaving is deterministic; it is the one in which an acknowledgement that is not a
+// blocking send gets lost.
+func c20RunTight(p c20Case) *c20Run {
+	if atomic.LoadInt32(&c20SingleP) == 0 {
+		prev := runtime.GOMAXPROCS(1)
+		defer runtime.GOMAXPROCS(prev)
+	}
+	run := c20Attempt(p, 200*time.Millisecond, true)
+	if run.asm == "stuck" || run.cons == "stuck" {
+		run = c20Attempt(p, 600*time.Millisecond, true)
+	}
+	return run
+}
+
+func c20Assemble(p c20Case, run, tight *c20Run) Result {
+	var res Result
 	res.Obs = append(res.Obs, run.lines...)
 	res.Obs = append(res.Obs, fmt.Sprintf("asm=%s;cons=%s;ret=%d", run.asm, run.cons, run.ret))
 	res.Oracle = append(res.Oracle, run.oracle...)
 	if p.ini {
 		res.Oracle = append(res.Oracle, c20Oracle(p, run)...)
 	}
+	if tight != nil {
+		const how = " [one P, consumer calls back-to-back after receiving from a parked sender]"
+		seen := map[string]bool{}
+		for _, o := range res.Oracle {
+			seen[strings.SplitN(o, "\t", 2)[0]] = true
+		}
+		fails := append([]string(nil), tight.oracle...)
+		if p.ini {
+			fails = append(fails, c20Oracle(p, tight)...)
+		}
+		for _, o := range fails {
+			if cl := strings.SplitN(o, "\t", 2)[0]; !seen[cl] {
+				seen[cl] = true
+				res.Oracle = append(res.Oracle, o+how)
+			}
+		}
+		same := tight.asm == run.asm && tight.cons == run.cons && tight.ret == run.ret && len(tight.lines) == len(run.lines)
+		for i := 0; same && i < len(run.lines); i++ {
+			same = run.lines[i] == tight.lines[i]
+		}
+		if !same && p.ini {
+			res.Oracle = append(res.Oracle, fmt.Sprintf("C20:schedule\tfree-running: %d calls, asm=%s cons=%s ret=%d; one P: %d calls, asm=%s cons=%s ret=%d",
+				len(run.lines), run.asm, run.cons, run.ret, len(tight.lines), tight.asm, tight.cons, tight.ret))
+		}
+	}
 	return res
+}
+
+func (c20) runCase(c Case) Result {
+	p, err := c20Parse(c)
+	if err != nil {
+		return Result{Obs: []string{"bad-case=" + err.Error()}}
+	}
+	return c20Assemble(p, c20RunFree(p), c20RunTight(p))
 }
 
 // c20Oracle: the property, stated on what the real code did (independent of the model).
@@ -421,32 +488,46 @@ func (h c20) Run(c Case) Result {
 		if len(c20Generated) == 0 {
 			return
 		}
-		type item struct {
-			key string
-			res Result
+		n := len(c20Generated)
+		parsed := make([]c20Case, n)
+		ok := make([]bool, n)
+		free := make([]*c20Run, n)
+		tight := make([]*c20Run, n)
+		for i, j := range c20Generated {
+			p, err := c20Parse(j)
+			parsed[i], ok[i] = p, err == nil
 		}
-		jobs := make(chan Case)
-		outs := make(chan item)
-		var wg sync.WaitGroup
-		for w := 0; w < 24; w++ {
-			wg.Add(1)
-			go func() {
-				defer wg.Done()
-				for j := range jobs {
-					outs <- item{strings.Join(j.Ops, " "), h.runCase(j)}
-				}
-			}()
-		}
-		go func() {
-			for _, j := range c20Generated {
-				jobs <- j
+		phase := func(f func(i int)) {
+			jobs := make(chan int)
+			var wg sync.WaitGroup
+			for w := 0; w < 24; w++ {
+				wg.Add(1)
+				go func() {
+					defer wg.Done()
+					for i := range jobs {
+						if ok[i] {
+							f(i)
+						}
+					}
+				}()
+			}
+			for i := 0; i < n; i++ {
+				jobs <- i
 			}
 			close(jobs)
 			wg.Wait()
-			close(outs)
-		}()
-		for it := range outs {
-			c20Memo[it.key] = it.res
+		}
+		phase(func(i int) { free[i] = c20RunFree(parsed[i]) })
+		// second pass on one P (see c20RunTight)
+		prev := runtime.GOMAXPROCS(1)
+		atomic.StoreInt32(&c20SingleP, 1)
+		phase(func(i int) { tight[i] = c20RunTight(parsed[i]) })
+		atomic.StoreInt32(&c20SingleP, 0)
+		runtime.GOMAXPROCS(prev)
+		for i, j := range c20Generated {
+			if ok[i] {
+				c20Memo[strings.Join(j.Ops, " ")] = c20Assemble(parsed[i], free[i], tight[i])
+			}
 		}
 	})
 	if r, ok := c20Memo[strings.Join(c.Ops, " ")]; ok {
